@@ -218,7 +218,7 @@ def check_term(rep, crate, cfgname, known_loop_findings=()):
 def progress_pattern(loop_ev, nid, inner):
     """counter with bound: the loop is left when `v > bound` (break) and the only assignment to v inside the loop sets
     it to a value that its own path condition proves larger than the value at the loop head"""
-    brk = [x for x in inner if x['kind'] == 'break']
+    brk = [x for x in inner if x['kind'] in ('break', 'ret')]
     assigns = [x for x in inner if x['kind'] == 'assign' and not x['fields']]
     if not brk or not assigns:
         return None
